@@ -278,14 +278,22 @@ def _espan(e: Any) -> tuple[int, int]:
     return e.start, e.stop
 
 
-def _check_expr(expr: list, lo: int, hi: int, src: str, what: str) -> str | None:
+def _check_expr(expr: list, lo: int, hi: int, src: str, what: str, gaps: bool = True) -> str | None:
     """Expression tokens nested in [lo, hi], in order, each within the source;
     plain tokens spell the text of their span; children recursively."""
     from liquid2 import token as T
 
     prev = lo
-    for e in expr:
+    for n, e in enumerate(expr):
         a, b = _espan(e)
+        if gaps and isinstance(e, T.PathToken):
+            # the path token covers all of the text it was scanned from: what follows
+            # it up to the next token is only whitespace, a quote or closing markup
+            nb = expr[n + 1].start if n + 1 < len(expr) else hi
+            gap = src[b:max(b, nb)]
+            if gap.strip(" \t\r\n'\"+-~%}"):
+                return (f"text: {what}: path token {dump(e)} stops at {b}, but the path text continues "
+                        f"({gap!r} before the next token)")
         if not (lo <= a and a <= b and b <= hi):
             return f"nesting: {what}: token {dump(e)} not inside [{lo},{hi}]"
         if a < prev:
@@ -309,7 +317,7 @@ def _check_expr(expr: list, lo: int, hi: int, src: str, what: str) -> str | None
                     if r:
                         return r
         elif isinstance(e, T.RangeToken):
-            r = _check_expr([e.range_start, e.range_stop], a, b, src, what + " range")
+            r = _check_expr([e.range_start, e.range_stop], a, b, src, what + " range", gaps=False)  # ".." and ")" follow
             if r:
                 return r
     return None
@@ -560,15 +568,17 @@ class _Universal(dict):
         return self is o
 
 
-_strict_env: Any = None
+_strict_envs: dict[bool, Any] = {}
 
 
-def strict_env() -> Any:
-    global _strict_env
-    if _strict_env is None:
+def strict_env(shorthand: bool = False) -> Any:
+    if shorthand not in _strict_envs:
         from liquid2 import Environment, StrictUndefined
-        _strict_env = Environment(undefined=StrictUndefined)
-    return _strict_env
+
+        class E(Environment):
+            shorthand_indexes = shorthand
+        _strict_envs[shorthand] = E(undefined=StrictUndefined)
+    return _strict_envs[shorthand]
 
 
 def _all_variables(an: Any) -> list[tuple[str, Any]]:
@@ -580,7 +590,7 @@ def _all_variables(an: Any) -> list[tuple[str, Any]]:
     return out
 
 
-def variable_spans(src: str) -> tuple[int, str | None]:
+def variable_spans(src: str, shorthand: bool = False) -> tuple[int, str | None]:
     """For every variable that static analysis reports for `src` (analyze and
     analyze_async): source[span] spells that variable's own path - re-parsing the
     slice alone gives a path with the same segments that spans the whole slice -
@@ -589,7 +599,7 @@ def variable_spans(src: str) -> tuple[int, str | None]:
 
     from liquid2.exceptions import LiquidError
 
-    env = env_for(False)
+    env = env_for(shorthand)
     try:
         t = env.from_string(src)
         an = t.analyze(include_partials=False)
@@ -635,7 +645,7 @@ def variable_spans(src: str) -> tuple[int, str | None]:
     return count, None
 
 
-def nested_path_check(src: str, nodes: list[dict], must_raise: bool) -> tuple[int, str | None]:
+def nested_path_check(src: str, nodes: list[dict], must_raise: bool, shorthand: bool = False) -> tuple[int, str | None]:
     """`src` contains one generated variable path whose nested paths have known
     positions (harness/lexgen.py nested_path). (1) analyze() must report exactly
     those spans for those roots; (2) under StrictUndefined, with every root but
@@ -646,7 +656,7 @@ def nested_path_check(src: str, nodes: list[dict], must_raise: bool) -> tuple[in
 
     from liquid2.exceptions import LiquidError, UndefinedError
 
-    env = env_for(False)
+    env = env_for(shorthand)
     checks = 0
     try:
         an = env.from_string(src).analyze(include_partials=False)
@@ -658,7 +668,7 @@ def nested_path_check(src: str, nodes: list[dict], must_raise: bool) -> tuple[in
     if sorted(set(got)) != want:
         return checks, f"variable-span: analyze() reports {sorted(set(got))} for the nested paths at {want}"
     u = _Universal()
-    senv = strict_env()
+    senv = strict_env(shorthand)
     t = senv.from_string(src)
     for nd in nodes:
         data = {o["root"]: u for o in nodes if o is not nd}
